@@ -39,6 +39,15 @@ type SCase struct {
 	Runts int `json:"runts,omitempty"`
 }
 
+// GenS01 draws cases for C01: datagrams too short to parse (incl. empty ones) first, then bursts;
+// afterwards every request must still get its answer
+func GenS01(t *rapid.T) SCase {
+	c := GenS(t)
+	c.Mode = "C01"
+	c.Runts = rapid.IntRange(1, 5).Draw(t, "runts01")
+	return c
+}
+
 // GenS11 draws DHCPv4 cases for C11
 func GenS11(t *rapid.T) SCase {
 	c := GenS(t)
@@ -131,7 +140,7 @@ func ExecS(c SCase) (res core.Result) {
 		}
 		if conn, err := net.DialUDP(network, nil, addr); err == nil {
 			for i := 0; i < c.Runts; i++ {
-				conn.Write(bytes.Repeat([]byte{1}, []int{1, 3, 100, 239}[i%4]))
+				conn.Write(bytes.Repeat([]byte{1}, []int{0, 1, 3, 100, 239}[i%5]))
 			}
 			conn.Close()
 			time.Sleep(5 * time.Millisecond)
@@ -232,7 +241,11 @@ func ExecS(c SCase) (res core.Result) {
 					}
 				}
 				if !got[xid] {
-					res.Viol = core.Violate("C16/serve-loop-drops-datagram", "Serve loop: a %d-byte datagram (xid %#x) sent alone four times after a burst is never answered, although every one-at-a-time order answers it", len(d), xid)
+					sig := "C16/serve-loop-drops-datagram"
+					if c.Mode == "C01" {
+						sig = "C01/serve-loop-wedged"
+					}
+					res.Viol = core.Violate(sig, "Serve loop: a %d-byte datagram (xid %#x) sent alone four times after a burst (and %d datagrams too short to parse before it) is never answered, although every one-at-a-time order answers it", len(d), xid, c.Runts)
 					return
 				}
 			}
